@@ -356,7 +356,15 @@ fn check_plan(ctx: &'static Ctx, cnt: &Counters, case: &ClassCase, plan: &Plan, 
 			if a == b {
 				j.st.outcome(&format!("{origin}:equal"));
 			} else {
+				// duke's tree holds one merged list for LocalVariableTable and LocalVariableTypeTable: when that list is empty
+				// it cannot say which of the two attributes was the empty one, so with exactly one of the two interests on a
+				// replay cannot know whether the reader would have met a table of interest. Not charged (information only).
+				let which_empty_table_unknown = plan.on(visitors::CODE, 2) != plan.on(visitors::CODE, 3) && case.full.methods.iter().any(|m| m.code.as_ref().is_some_and(|c| c.empty_local_table));
 				for (k, d) in cfmodel::sdiff::diff(a, b).0 {
+					if which_empty_table_unknown && k.starts_with("method.code.local_variables.empty_table") {
+						j.st.outcome(&format!("{origin}:empty-local-table-of-unknown-kind:not-charged"));
+						continue;
+					}
 					j.diff(origin, &k, &format!("reading the bytes (expected) and replaying the tree (got) deliver different items to the same visitor: {d}"));
 				}
 			}
